@@ -8,6 +8,7 @@ package gabi
 // the credential, and the statement it reports is true of the signed attribute at that index.
 
 import (
+	"encoding/json"
 	"fmt"
 	"sort"
 	"testing"
@@ -84,13 +85,39 @@ func c12Verify(pk *gabikeys.PublicKey, p *ProofD) (accepted, panicked bool) {
 		ok3 = q3.Verify(pk, vfContext, vfNonce, false)
 		ok3 = q3.Verify(pk, vfContext, vfNonce, false) || ok3
 	})
-	return ok1 || ok2 || ok3, pan1 || pan2 || pan3
+	// fourth route: the verifier decodes the message into a ProofD value that already received - and
+	// verified - another proof of the same shape (c12Prior); nothing left in the value by that may vouch
+	// for the new content.  (Only when decoding replaced the content completely: encoding/json merges maps.)
+	var ok4, pan4 bool
+	if c12Prior != nil {
+		q4 := &ProofD{}
+		vfJSONCopy(c12Prior, q4)
+		pan4, _ = vkit.Guard(func() {
+			if !q4.Verify(pk, vfContext, vfNonce, false) {
+				return
+			}
+			bts, err := json.Marshal(p)
+			if err != nil || json.Unmarshal(bts, q4) != nil {
+				return
+			}
+			if again, err := json.Marshal(q4); err != nil || string(again) != string(bts) {
+				return
+			}
+			ok4 = q4.Verify(pk, vfContext, vfNonce, false)
+			ok4 = (ProofList{q4}).Verify([]*gabikeys.PublicKey{pk}, vfContext, vfNonce, false, nil) || ok4
+		})
+	}
+	return ok1 || ok2 || ok3 || ok4, pan1 || pan2 || pan3 || pan4
 }
+
+// c12Prior: a valid proof that the receiver's ProofD value held (and verified) before the message under
+// test is decoded into it; nil = the fourth route is not taken.
+var c12Prior *ProofD
 
 func TestVerifC12Crypto(t *testing.T) {
 	r := vkit.Start(t, "C12", "crypto-layer", 240*time.Second, 1200*time.Second)
 	defer r.Finish()
-	r.Rule = "credential (50, tag, 20, tag) x disclosure sets x true statements (>=,<=; 3 and 4 squares; factors 1,3) on attributes 1 and 3: honest proofs; false statements at bound-+1 must not be creatable; every single-field alteration of every range proof (Cs, ds, vs, v5, l_d, sign, a, k incl. k moved across the boundary); every transplant (to another hidden index, a disclosed index below / above the largest hidden index, unused base, len(R), 1000, -1; from another credential; moved and copied, also with the non-transported attribute-response field pre-set by the sender); forgeries with the statement chosen after the challenge (commitments fixed first, bases C_i and bound k solved for once the challenge is known; 3 and 4 squares, both signs, factors 1,4,5,7); forgeries by omission (a zero-valued attribute mentioned neither as hidden nor as disclosed, a false range proof at the largest hidden index); consistent-lie forgeries (a well-formed range proof about a value satisfying the false statement, with the attribute's or a fresh randomiser, carrying its own response); three verification routes (wire copy, wire copy in a list, Go objects handed over directly), each verifying its object twice; non-trivial = distinct (base proof, alteration); oracle (semantic): accepted => every carried range proof is on a hidden existing index and its reported statement is true of the signed value; honest => accepted"
+	r.Rule = "credential (50, tag, 20, tag) x disclosure sets x true statements (>=,<=; 3 and 4 squares; factors 1,3) on attributes 1 and 3: honest proofs; false statements at bound-+1 must not be creatable; every single-field alteration of every range proof (Cs, ds, vs, v5, l_d, sign, a, k incl. k moved across the boundary); every transplant (to another hidden index, a disclosed index below / above the largest hidden index, unused base, len(R), 1000, -1; from another credential; moved and copied, also with the non-transported attribute-response field pre-set by the sender); forgeries with the statement chosen after the challenge (commitments fixed first, bases C_i and bound k solved for once the challenge is known; 3 and 4 squares, both signs, factors 1,4,5,7); forgeries by omission (a zero-valued attribute mentioned neither as hidden nor as disclosed, a false range proof at the largest hidden index); consistent-lie forgeries (a well-formed range proof about a value satisfying the false statement, with the attribute's or a fresh randomiser, carrying its own response); four verification routes (wire copy, wire copy in a list, Go objects handed over directly, message decoded into a ProofD value that already received and verified the honest proof), each verifying its object twice; non-trivial = distinct (base proof, alteration); oracle (semantic): accepted => every carried range proof is on a hidden existing index and its reported statement is true of the signed value; honest => accepted"
 	table := rangeproof.GenerateSquaresTable(4096)
 	for _, keyName := range vkit.Pick([]string{"toyA"}, []string{"toyA", "k1024a"}) {
 		k := vfK(keyName)
@@ -421,6 +448,7 @@ func TestVerifC12Crypto(t *testing.T) {
 				continue
 			}
 			c12Judge(r, attrs, honest, "honest", b.name)
+			c12Prior = honest
 			r.Sample(map[string]any{"key": keyName, "base": b.name})
 			type alt struct {
 				class, desc string
